@@ -95,6 +95,11 @@ def run(R):
     R.rule("C19-R5", "search completeness: every immediate subset of an inconsistent candidate is queued; the only reasons not to "
                      "queue or expand a candidate are that it is consistent or was seen before (no pruning by size or count: a "
                      "smaller consistent set can still be subset-maximal)")
+    R.rule("C19-R6", "consistency means every constraint: violates_constraints answers true as soon as one constraint has a match and "
+                     "false only after ALL constraints were joined without a match")
+    R.rule("C19-R7", "repair-aware materialisation starts from exactly the chosen repair: when the stored facts are inconsistent the "
+                     "index is emptied and refilled with every fact of the repair, and the working fact set becomes that repair")
+    r6_r7(R)
     cr = R.body("C19-R1", "Reasoner::compute_repairs", crate="datalog")
     if cr is not None:
         r5(R, cr)
@@ -201,3 +206,86 @@ def run(R):
             from_all = bool(base and base[0] == "call" and base[2].name() == "clone")
             R.ob("C19-R4", "tested-set-contains-candidate", "the consistency test runs on (all facts + the candidate fact)",
                  bool(ins) and from_all, where=wr.where(c.ln))
+
+
+def r6_r7(R):
+    from lib import pipeline as P
+    prog = R.prog
+    vc = R.body("C19-R6", "Reasoner::violates_constraints", crate="datalog")
+    if vc is not None:
+        R.saw(vc)
+        loops = vc.loops()
+        anys = [c for c in vc.calls() if c.name() == "any"]
+        if loops:
+            h, blocks = max(loops, key=lambda x: len(x[1]))
+            drv = P.driver_of(vc, h, blocks)
+            names, roots = P.flat(drv[2]) if drv and drv[2] else ([], [])
+            over = any(r["k"] == "root" and "constraints" in r["fields"] for r in roots)
+            whole = not [n for n in names if n not in ("iter", "into_iter", "deref")]
+            R.ob("C19-R6", "all-constraints", "violates_constraints visits every constraint (pipeline %s over %s)" % (names, [P.render(r) for r in roots]),
+                 over and whole, where=vc.where())
+            bad = []
+            for bb, i, pl, rv, st in vc.assigns():
+                if pl["l"] == 0 and not pl["p"] and bb in blocks:
+                    if not (rv["rv"] == "use" and F.const_int(rv["op"]) == 1):
+                        bad.append(st.get("ln"))
+            # exits of the loop other than exhaustion must carry the verdict `true`
+            R.ob("C19-R6", "false-only-after-all", "inside the loop over the constraints the only verdict produced is `true` (violated)", not bad,
+                 where=vc.where(bad[0] if bad else None),
+                 detail=None if not bad else "a verdict computed from one constraint alone ends the check: a set violating a later constraint counts as consistent")
+            joins = [c for c in vc.calls() if c.bb in blocks and c.name() == "join_rule"]
+            R.ob("C19-R6", "joins", "each constraint is joined against the candidate set itself (both arguments)", len(joins) >= 1 and all(
+                vc.alias_root(c.args[1]) == 2 and vc.alias_root(c.args[2]) == 2 for c in joins), where=vc.where())
+        else:
+            ok = False
+            for c in anys:
+                names, roots = P.flat(P.tree(vc, c.args[0]))
+                if any(r["k"] == "root" and "constraints" in r["fields"] for r in roots) and not [n for n in names if n not in ("iter", "into_iter", "deref")]:
+                    ok = True
+            R.ob("C19-R6", "all-constraints", "violates_constraints is `any` over every constraint", ok, where=vc.where())
+    mat = R.body("C19-R7", "Reasoner::infer_new_facts_semi_naive_with_repairs", crate="datalog")
+    if mat is None:
+        return
+    R.saw(mat)
+    guards = [c for c in mat.calls() if c.name() == "violates_constraints"]
+    cr = [c for c in mat.calls() if c.name() == "compute_repairs"]
+    R.ob("C19-R7", "repairs-computed", "the strategy computes repairs when the stored facts violate a constraint", len(cr) == 1 and len(guards) >= 1, where=mat.where())
+    if len(cr) != 1:
+        return
+    c0 = cr[0]
+    # reset of the index in the region dominated by compute_repairs
+    resets = []
+    for bb, i, pl, rv, st in mat.assigns():
+        if pl["p"] and pl["p"][-1].get("n") == "dataset_index" and mat.dominates(c0.bb, bb):
+            o = mat.origin(rv["op"], stop_named=False) if rv["rv"] == "use" else None
+            if o and o[0] == "call" and o[1].name() in ("new", "default"):
+                resets.append((bb, st.get("ln")))
+    for c in mat.calls():
+        if c.name() == "clear" and c.args and mat.dominates(c0.bb, c.bb):
+            o = mat.origin(c.args[0], stop_named=False)
+            if o[0] == "place" and any(e.get("n") == "dataset_index" for e in o[1]["p"]):
+                resets.append((c.bb, c.ln))
+    R.ob("C19-R7", "emptied", "the index is emptied before the repair is loaded (found %d reset)" % len(resets), len(resets) >= 1, where=mat.where(c0.ln),
+         detail=None if resets else "facts removed by the repair stay in the index: the materialisation ends in an inconsistent fact set")
+    # refill: insert into self.dataset_index in a loop over the chosen repair, after the reset
+    fills = []
+    for c in mat.calls():
+        if c.name() == "insert" and len(c.args) == 2 and mat.dominates(c0.bb, c.bb):
+            o = mat.origin(c.args[0], stop_named=False)
+            if o[0] == "place" and any(e.get("n") == "dataset_index" for e in o[1]["p"]):
+                drv = P.loop_driver(mat, c.bb)
+                if drv and drv[2] is not None:
+                    names, roots = P.flat(drv[2])
+                    if not [n for n in names if n not in ("iter", "into_iter", "deref")] and len(roots) == 1 and roots[0]["k"] == "root":
+                        fills.append((c, roots[0]["local"]))
+    fills = [f for f in fills if any(mat.dominates(rb, f[0].bb) for rb, ln in resets)] if resets else fills
+    R.ob("C19-R7", "refilled", "every fact of the chosen repair is inserted into the emptied index", len(fills) >= 1, where=mat.where(c0.ln))
+    if fills:
+        rep = mat.alias_root(fills[0][1])
+        der = P.derives(prog, mat, fills[0][1])
+        R.ob("C19-R7", "from-repairs", "the loaded set is one of the computed repairs", ("call", "compute_repairs") in der, where=mat.where(fills[0][0].ln))
+        asg = False
+        for bb, i, pl, rv, st in mat.assigns():
+            if not pl["p"] and mat.local_name(pl["l"]) == "all_facts" and rv["rv"] == "use" and mat.alias_root(rv["op"]) == rep and mat.dominates(c0.bb, bb):
+                asg = True
+        R.ob("C19-R7", "working-set", "the working fact set becomes the same repair", asg, where=mat.where(fills[0][0].ln))
